@@ -59,7 +59,9 @@ def reroot(t, var):
         return t
     if k == "Attribute":
         if t[1] == var:
-            return T.I(t[2])
+            # the segment as the parser would read it on its own: a qualified segment `ns.a` is the name `a` in namespace `ns`
+            parts = t[2].split(".")
+            return T.I(parts[-1], tuple(parts[:-1]))
         if t[1][0] == "Attribute":
             return ("Attribute", reroot(t[1], var), t[2])
         return t
